@@ -112,8 +112,18 @@ def gen_instance(rng, small=False, long_thin=False):
     reads.sort(key=lambda r: r["first"])
     recomb = [rng.choice([0, 0, 1, 5, 17, 30]) for _ in range(ncols)]
     # optional read-less columns stay in the instance (they exist through the `positions` argument)
-    return {"ncols": ncols, "reads": reads, "nind": nind, "trios": trios, "geno": geno, "recomb": recomb,
+    inst = {"ncols": ncols, "reads": reads, "nind": nind, "trios": trios, "geno": geno, "recomb": recomb,
             "mode": mode, "use_positions": True}
+    if rng.random() < 0.2:
+        # re-phasing history: some reads get their later entries only after a first solver run on the same ReadSet
+        reuse = {}
+        for k, r in enumerate(reads):
+            if len(r["entries"]) >= 2 and rng.random() < 0.5:
+                cut = rng.randrange(1, len(r["entries"]))
+                reuse[str(k)] = [list(e) for e in r["entries"][cut:]]
+        if reuse:
+            inst["reuse"] = reuse
+    return inst
 
 
 # ------------------------------------------------------------------------------------------------
@@ -125,14 +135,33 @@ def run_impl(inst):
     ids = NumericSampleIds()
     names = [f"ind{i}" for i in range(inst["nind"])]
     rs = ReadSet()
+    reuse = inst.get("reuse") or {}
     for k, r in enumerate(inst["reads"]):
         rd = Read(f"read{k:04d}", 50, 0, ids[names[r["ind"]]])
+        later = {tuple(e) for e in reuse.get(str(k), [])}
         for c, a, w in r["entries"]:
-            rd.add_variant((c + 1) * 10, a, w)
+            if (c, a, w) not in later:
+                rd.add_variant((c + 1) * 10, a, w)
         rs.add(rd)
     # the instance lists reads already sorted by first position; ReadSet.sort() is stable w.r.t. that key only up
     # to ties, so we read the final order back
     rs.sort()
+    if inst.get("reuse"):
+        # history: the SAME ReadSet object has been phased before with fewer variants per read, then extended in
+        # place and re-sorted (ids / entry bookkeeping from the first run must not leak into the second)
+        run_on_readset(inst, rs, ids, names, first=True)
+        by_name = {rd.name: rd for rd in rs}
+        for k, extra in inst["reuse"].items():
+            rd = by_name[f"read{int(k):04d}"]
+            for c, a, w in extra:
+                rd.add_variant((c + 1) * 10, a, w)
+            rd.sort()
+        rs.sort()
+    return run_on_readset(inst, rs, ids, names)
+
+
+def run_on_readset(inst, rs, ids, names, first=False):
+    from whatshap.core import Pedigree, PedigreeDPTable, Genotype, PhredGenotypeLikelihoods
     order = [int(rd.name[4:]) for rd in rs]
     ped = Pedigree(ids)
     distrust = inst["mode"] == "distrust"
@@ -150,6 +179,12 @@ def run_impl(inst):
     for f, m, c in inst["trios"]:
         ped.add_relationship(names[f], names[m], names[c])
     positions = [(c + 1) * 10 for c in range(inst["ncols"])]
+    if first:
+        try:
+            PedigreeDPTable(rs, inst["recomb"], ped, distrust, positions)
+        except RuntimeError:
+            pass
+        return None
     try:
         dp = PedigreeDPTable(rs, inst["recomb"], ped, distrust, positions)
         superreads, tv = dp.get_super_reads()
@@ -172,6 +207,7 @@ def reorder(inst, order):
         return inst
     j = dict(inst)
     j["reads"] = [inst["reads"][k] for k in order]
+    j.pop("reuse", None)
     return j
 
 
@@ -267,7 +303,8 @@ def run(ctx):
     reqs = []
 
     def submit(inst_raw, brute):
-        ctx.inflight({"instance": {**model_inst(inst_raw), "mode": inst_raw["mode"], "use_positions": True}})
+        ctx.inflight({"instance": {**model_inst(inst_raw), "mode": inst_raw["mode"], "use_positions": True,
+                                   **({"reuse": inst_raw["reuse"]} if inst_raw.get("reuse") else {})}})
         impl = run_impl(inst_raw)
         inst = reorder(inst_raw, impl["order"])
         ctx.evaluated()
@@ -277,6 +314,7 @@ def run(ctx):
         ctx.dist("pedigree", f"{inst['nind']}ind/{len(inst['trios'])}trios")
         ctx.dist("mode", inst["mode"]); ctx.dist("ncols", inst["ncols"]); ctx.dist("max_coverage", ncov)
         ctx.dist("outcome", "conflict" if "error" in impl else "solved")
+        ctx.dist("readset_history", "re-phased after in-place extension" if inst_raw.get("reuse") else "fresh")
         mi = model_inst(inst)
         start = len(reqs)
         reqs.append({"op": "c01.cost", "inst": mi})
